@@ -55,7 +55,13 @@ type Defpackage struct {
 // Call the function with the arguments provided.
 func (f *Defpackage) Call(s *slip.Scope, args slip.List, depth int) (result slip.Object) {
 	slip.CheckArgCount(s, depth, f, args, 1, 7)
-	a0 := slip.EvalArg(s, args, 0, depth)
+	var a0 slip.Object
+	if sym, ok := args[0].(slip.Symbol); ok && !s.Bound(sym) {
+		// As in Common Lisp a bare symbol names the package.
+		a0 = sym
+	} else {
+		a0 = slip.EvalArg(s, args, 0, depth)
+	}
 	name := slip.MustBeString(a0, "name")
 	if slip.FindPackage(name) != nil {
 		slip.ErrorPanic(s, depth, "Package %s already exists.", name)
